@@ -578,6 +578,25 @@ pub mod d8002 {
     }
 }
 """)
+        # methods the user declared `extern "C"` themselves, over the shapes the generator wraps: the vtable entry and the
+        # generated wrapper still have to use the C-representable forms (the user's own declaration is theirs to answer for)
+        parts.append("""pub mod d8003 {
+    use super::*;
+    #[cglue_trait]
+    pub trait T {
+        extern "C" fn e_slice(&self, a: &[u32]) -> u32;
+        extern "C" fn e_mslice(&mut self, a: &mut [u8]);
+        extern "C" fn e_str(&self, a: &str) -> u64;
+        extern "C" fn e_opt(&self, a: Option<u64>) -> Option<u32>;
+        extern "C" fn e_res(&self, a: Result<u64, u64>) -> Result<u32, u32>;
+        extern "C" fn e_rstr(&self) -> &str;
+        extern "C" fn e_rslice(&self) -> &[u8];
+        extern "C" fn e_leaf(&self, a: u32, b: Pt) -> u64;
+    }
+}
+""")
+        index.append({"k": 8003, "extra": True, "user_abi": True, "d": {"recv": "ref", "arg": "wrapped shapes", "ret": "methods declared extern \"C\" by the user", "ir": False}, "sig": None,
+                      "probe_types": ["crate::d8003::TBox<'static>", "crate::d8003::TRef<'static>", "crate::d8003::TArcBox<'static>"]})
         index.append({"k": 8001, "extra": True, "d": {"recv": "ref", "arg": "none", "ret": "wrapped objects (owned, by reference, by mutable reference)", "ir": False}, "sig": None,
                       "probe_types": ["crate::d8001::InBox<'static>"]})
         index.append({"k": 8002, "extra": True, "d": {"recv": "ref", "arg": "none", "ret": "group with two optional traits; group-wrapped returns", "ir": False}, "sig": None,
